@@ -25,6 +25,7 @@ import (
 	"errors"
 	"fmt"
 	"io"
+	"os"
 	"strings"
 
 	json "github.com/go-json-experiment/json"
@@ -36,7 +37,7 @@ import (
 )
 
 type OCase struct {
-	Mode   int   `json:"mode"`   // 0 decoder session, 1 encoder session, 2 fallback unmarshal, 3 fallback marshal
+	Mode   int   `json:"mode"`   // 0 decoder session, 1 encoder session, 2 fallback unmarshal, 3 fallback marshal, 4 options visible to user code in tagged fields
 	Opens  []int `json:"opens"`  // containers opened by the caller, outermost first: 0 array, 1 object (the innermost is always an array)
 	N      int   `json:"n"`      // elements of the innermost array
 	Idx    int   `json:"idx"`    // element on which the user code misbehaves
@@ -51,7 +52,7 @@ type OCase struct {
 
 func genOCase(t *rapid.T) OCase {
 	c := OCase{
-		Mode:   rapid.IntRange(0, 3).Draw(t, "mode"),
+		Mode:   rapid.IntRange(0, 4).Draw(t, "mode"),
 		N:      rapid.IntRange(1, 5).Draw(t, "n"),
 		Behav:  rapid.SampledFrom([]int{0, 1, 1, 1, 2}).Draw(t, "behav"),
 		Method: rapid.Bool().Draw(t, "method"),
@@ -141,8 +142,10 @@ func RunOwned(c OCase) error {
 		err = runOwnedEncoder(c)
 	case 2:
 		err = runFallbackUnmarshal(c)
-	default:
+	case 3:
 		err = runFallbackMarshal(c)
+	default:
+		err = runVisibleOptions(c)
 	}
 	fp := cov.FPs("owned", fmt.Sprintf("%+v", c))
 	if c.Behav != 0 || c.Mode >= 2 {
@@ -207,14 +210,15 @@ func runOwnedDecoder(c OCase) error {
 		c.Behav = 1 // the default representation would not fit the element: what happens to the value then is another property's business
 	}
 	doc, _ := ownedDoc(c)
+	var ctor []jsontext.Options // c.Dup: the functions are options of the coder itself, the calls pass none
 	mkDec := func() *jsontext.Decoder {
 		switch c.Reader {
 		case 1:
-			return jsontext.NewDecoder(bytes.NewBuffer(bytes.Clone(doc)))
+			return jsontext.NewDecoder(bytes.NewBuffer(bytes.Clone(doc)), ctor...)
 		case 2:
-			return jsontext.NewDecoder(oneByte{bytes.NewReader(doc)})
+			return jsontext.NewDecoder(oneByte{bytes.NewReader(doc)}, ctor...)
 		}
-		return jsontext.NewDecoder(bytes.NewReader(doc))
+		return jsontext.NewDecoder(bytes.NewReader(doc), ctor...)
 	}
 	cur := 0 // element index seen by the user code
 	behavNow := new(int)
@@ -236,6 +240,10 @@ func runOwnedDecoder(c OCase) error {
 		}
 		return nil
 	}))
+	callOpts := []json.Options{opts}
+	if c.Dup {
+		ctor, callOpts = []jsontext.Options{opts}, nil
+	}
 	session := func(twin bool) (steps []oStep, perr *rt.PanicErr) {
 		dec := mkDec()
 		note := func(what string, err error) {
@@ -269,7 +277,7 @@ func runOwnedDecoder(c OCase) error {
 					err = json.UnmarshalDecode(dec, &e)
 				} else {
 					var v int
-					err = json.UnmarshalDecode(dec, &v, opts)
+					err = json.UnmarshalDecode(dec, &v, callOpts...)
 				}
 				switch {
 				case b == 1 && !errors.Is(err, errOwned):
@@ -291,7 +299,7 @@ func runOwnedDecoder(c OCase) error {
 				note("next", err)
 			} else {
 				var next []int
-				err := json.UnmarshalDecode(dec, &next, opts)
+				err := json.UnmarshalDecode(dec, &next, callOpts...)
 				note("next", err)
 				if err == nil && (len(next) != 1 || next[0] != 2) {
 					note(fmt.Sprintf("next value decoded as %v, want [2] (the function stores the length of the text)", next), nil)
@@ -299,6 +307,10 @@ func runOwnedDecoder(c OCase) error {
 			}
 			_, err = dec.ReadToken()
 			note("end", err)
+			// the caller may reset its coder once no call is in progress
+			dec.Reset(bytes.NewReader([]byte(`[1]`)), ctor...)
+			_, err = dec.ReadValue()
+			note("after-reset", err)
 		})
 		return steps, perr
 	}
@@ -348,9 +360,14 @@ func runOwnedEncoder(c OCase) error {
 		}
 		return nil
 	}))
+	callOpts := []json.Options{opts}
+	var ctor []jsontext.Options // c.Dup: the functions are options of the coder itself, the calls pass none
+	if c.Dup {
+		ctor, callOpts = []jsontext.Options{opts}, nil
+	}
 	session := func(twin bool) (steps []oStep, out []byte, perr *rt.PanicErr) {
 		var bb bytes.Buffer
-		enc := jsontext.NewEncoder(&bb)
+		enc := jsontext.NewEncoder(&bb, ctor...)
 		note := func(what string, err error) {
 			steps = append(steps, oStep{what, errClass(err), enc.OutputOffset(), string(enc.StackPointer()), enc.StackDepth()})
 		}
@@ -385,7 +402,7 @@ func runOwnedEncoder(c OCase) error {
 				if c.Method {
 					err = json.MarshalEncode(enc, ownedElem{V: v, behav: behavNow})
 				} else {
-					err = json.MarshalEncode(enc, v, opts)
+					err = json.MarshalEncode(enc, v, callOpts...)
 				}
 				if b == 1 {
 					if !errors.Is(err, errOwned) {
@@ -409,8 +426,11 @@ func runOwnedEncoder(c OCase) error {
 			if twin {
 				note("next", enc.WriteValue(jsontext.Value(`[22]`)))
 			} else {
-				note("next", json.MarshalEncode(enc, []int{22}, opts))
+				note("next", json.MarshalEncode(enc, []int{22}, callOpts...))
 			}
+			// the caller may reset its coder once no call is in progress
+			enc.Reset(&bb, ctor...)
+			note("after-reset", enc.WriteValue(jsontext.Value(`[1]`)))
 		})
 		return steps, bb.Bytes(), perr
 	}
@@ -592,6 +612,116 @@ func runFallbackMarshal(c OCase) error {
 		}
 		if s != want {
 			return fmt.Errorf("Marshal wrote %s: member %q is %q, want %q\ncase %+v", out, k, s, want, c)
+		}
+	}
+	return nil
+}
+
+// (c) Options visible to user code: a method of a field type asks the coder
+// for the options; whatever the caller set explicitly must be reported as set,
+// with the caller's value, also inside fields tagged `string` or `omitzero`
+// and inside containers. Keys carries the explicit settings: option index*2 +
+// value.
+
+type qElem struct{ N int }
+
+var qLog *[]string // where qElem methods report (one case at a time)
+
+var qOptions = []struct {
+	name string
+	mk   func(bool) json.Options
+	get  func(json.Options) (bool, bool)
+}{
+	{"StringifyNumbers", json.StringifyNumbers, func(o json.Options) (bool, bool) { return json.GetOption(o, json.StringifyNumbers) }},
+	{"Deterministic", json.Deterministic, func(o json.Options) (bool, bool) { return json.GetOption(o, json.Deterministic) }},
+	{"FormatNilSliceAsNull", json.FormatNilSliceAsNull, func(o json.Options) (bool, bool) { return json.GetOption(o, json.FormatNilSliceAsNull) }},
+	{"OmitZeroStructFields", json.OmitZeroStructFields, func(o json.Options) (bool, bool) { return json.GetOption(o, json.OmitZeroStructFields) }},
+	{"MatchCaseInsensitiveNames", json.MatchCaseInsensitiveNames, func(o json.Options) (bool, bool) { return json.GetOption(o, json.MatchCaseInsensitiveNames) }},
+	{"RejectUnknownMembers", json.RejectUnknownMembers, func(o json.Options) (bool, bool) { return json.GetOption(o, json.RejectUnknownMembers) }},
+}
+
+func (q qElem) report(o json.Options) {
+	for _, qo := range qOptions {
+		v, ok := qo.get(o)
+		*qLog = append(*qLog, fmt.Sprintf("%s=%v,%v", qo.name, v, ok))
+	}
+}
+
+func (q qElem) MarshalJSONTo(enc *jsontext.Encoder) error {
+	q.report(enc.Options())
+	return enc.WriteToken(jsontext.Int(1))
+}
+
+func (q *qElem) UnmarshalJSONFrom(dec *jsontext.Decoder) error {
+	q.report(dec.Options())
+	_, err := dec.ReadValue()
+	return err
+}
+
+type qHolder struct {
+	Plain  qElem
+	Str    qElem            `json:",string"`
+	Zero   qElem            `json:",omitzero"`
+	Slice  []qElem
+	Map    map[string]qElem
+	Ptr    *qElem           `json:",string"`
+	Nested struct {
+		In qElem `json:",string"`
+	}
+}
+
+func runVisibleOptions(c OCase) error {
+	set := map[int]bool{}
+	var opts []json.Options
+	var asText []string
+	for _, k := range c.Keys {
+		i, v := (k/2)%len(qOptions), k%2 == 1
+		if _, dup := set[i]; dup {
+			continue
+		}
+		set[i] = v
+		opts = append(opts, qOptions[i].mk(v))
+		asText = append(asText, fmt.Sprintf("%s(%v)", qOptions[i].name, v))
+	}
+	if c.Dup && len(opts) > 1 {
+		opts = []json.Options{json.JoinOptions(opts...)}
+	}
+	var log []string
+	q := qElem{N: 1}
+	qLog = &log
+	var err error
+	if c.Elem == 0 {
+		h := qHolder{Plain: q, Str: q, Zero: q, Slice: []qElem{q}, Map: map[string]qElem{"k": q}, Ptr: &q}
+		h.Nested.In = q
+		if p := rt.Guard(func() { _, err = json.Marshal(&h, opts...) }); p != nil {
+			return fmt.Errorf("Marshal panicked: %v (options %v)", p, asText)
+		}
+	} else {
+		h := qHolder{Plain: q, Str: q, Zero: q, Slice: []qElem{q}, Map: map[string]qElem{"k": q}, Ptr: &q}
+		h.Nested.In = q
+		in := []byte(`{"Plain":1,"Str":"1","Zero":1,"Slice":[1],"Ptr":"1","Nested":{"In":"1"}}`)
+		if p := rt.Guard(func() { err = json.Unmarshal(in, &h, opts...) }); p != nil {
+			return fmt.Errorf("Unmarshal panicked: %v (options %v)", p, asText)
+		}
+	}
+	if err != nil {
+		if os.Getenv("C17_DBG") != "" {
+			fmt.Println("dbg err:", err)
+		}
+		return nil // not this sub-check's business
+	}
+	if os.Getenv("C17_DBG") != "" {
+		fmt.Println("dbg log:", log)
+	}
+	if len(log) == 0 {
+		return nil
+	}
+	for _, line := range log {
+		for i, v := range set {
+			pre := qOptions[i].name + "="
+			if strings.HasPrefix(line, pre) && line != fmt.Sprintf("%s%v,true", pre, v) {
+				return fmt.Errorf("user code of a field type asked the coder for %s and got %s; the caller passed %v (direction %d, joined %v): GetOption must report exactly what the caller set, also inside tagged fields", qOptions[i].name, line[len(pre):], asText, c.Elem, c.Dup)
+			}
 		}
 	}
 	return nil
